@@ -436,7 +436,7 @@ class Gen:
         parts = []
         for _ in range(r.randint(0, 3)):
             if r.random() < 0.5:
-                s = "".join(r.choice(["yes", "no", " ", "Hello", "a=b", "ok,", ".", "(", ")", "<b>", "&amp;"]) for _ in range(r.randint(1, 2)))
+                s = "".join(r.choice(["yes", "no", " ", "Hello", "a=b", "ok,", ".", "(", ")", "<b>", "&amp;", "}", "n}o", "{", "} "]) for _ in range(r.randint(1, 2)))
                 parts.append({"k": "text", "s": s, "src": s})
             else:
                 parts.append(self.inline_tag(scope, objloop_vars))
